@@ -7,6 +7,7 @@
    is C14.  The inflater is fdeflate (contract; the executable reference of Base/Inflate.v is used in the correspondence), chunk framing is the
    L0 machine (C04/C10).  Buffer management (compaction, partial rows) is tied by the correspondence check, not proved. *)
 From PngV Require Import Base.Bytes Spec.FilterSpec Gen.GenPaeth Model.Filter Proofs.PaethProofs Proofs.FilterProofs Model.Pipeline Proofs.PipelineProofs Base.Inflate.
+From PngV Require Import Model.ZlibBuf Proofs.ZlibBufProofs.
 
 (* every stream, row count, pixel size, row length (multiple of the filter unit): model rows = specification rows, same errors *)
 Theorem C01_row_pipeline_equals_specification :
@@ -52,6 +53,31 @@ Theorem C01_reconstruction_keeps_row_length :
        length (recon_spec ft bpp prior filt) = length filt.
 Proof. exact recon_spec_length. Qed.
 
+(* zlib.rs output buffer (constants regenerated from the source): every byte produced is delivered exactly once in order, and the most recent min(total, 32768) bytes always stay available for back-references, for every way the decompressor's output is split over calls *)
+Theorem C01_inflater_window_and_delivery :
+  forall news : list (list Z),
+       fits zb_new news ->
+       let z := fst (zb_run zb_new news) in
+       let produced := concat news in
+       snd (zb_run zb_new news) = produced /\
+       (exists pre : list Z, produced = pre ++ zb_data z) /\
+       (zlen produced <= zlen (zb_data z) \/ 32768 <= zlen (zb_data z)) /\
+       zb_len z <= BOUND /\ zlen (zb_data z) <= zb_len z.
+Proof. exact window_delivery_bound. Qed.
+
+(* one decompress call preserves the buffer invariant and delivers exactly what was produced *)
+Theorem C01_inflater_buffer_step :
+  forall (z : zbuf) (hist new : list Z),
+       ZInv z hist ->
+       zlen new <= zb_room (prepare z) ->
+       ZInv (fst (zb_step z new)) (hist ++ new) /\ snd (zb_step z new) = new.
+Proof. exact zb_step_correct. Qed.
+
+(* obligation on the regenerated constant: LOOKBACK_SIZE >= 32768 (the largest deflate distance) *)
+Theorem C01_lookback_covers_deflate_window :
+  32768 <= GenStream.LOOKBACK_SIZE.
+Proof. exact lookback_covers_deflate_window. Qed.
+
 (* ---- non-vacuity: a 2x2 RGB8 image through the complete model pipeline (stored deflate block, filters Sub and Up) *)
 Example C01_nonvacuous :
   decode_frame 2 8 2 2 false ([120; 1; 1; 14; 0; 241; 255; 1; 10; 20; 30; 1; 2; 3; 2; 5; 5; 5; 250; 250; 250] ++ [0;0;0;0])
@@ -61,3 +87,6 @@ Print Assumptions C01_row_pipeline_equals_specification.
 Print Assumptions C01_plain_image_equals_specification.
 Print Assumptions C01_row_length_is_whole_filter_units.
 Print Assumptions C01_reconstruction_keeps_row_length.
+Print Assumptions C01_inflater_window_and_delivery.
+Print Assumptions C01_inflater_buffer_step.
+Print Assumptions C01_lookback_covers_deflate_window.
